@@ -102,6 +102,8 @@ type c05Op struct {
 	gerr   bool
 	nerr   int
 	panicV any
+	g      *resolve.Graph // kept to re-read the result after everything else ran
+	err    error
 }
 
 type c05Scenario struct {
@@ -306,6 +308,15 @@ func RunC05(t *kernel.Tape, o Opts) *Result {
 	if concurrent {
 		cfg = drawSched(t, []string{"MatchingVersions", "Requirements", "Versions", "Version", "op"})
 	}
+	// npm and Maven tasks normally share one resolver; in a quarter of the
+	// concurrent runs they are spread over two resolvers on the one client
+	// (what is shared then is the client and the process).
+	var resolverOf []int
+	if concurrent && sys != resolve.PyPI && t.Bool(1, 4) {
+		for range programs {
+			resolverOf = append(resolverOf, t.Choose(2))
+		}
+	}
 	// Foreign concurrent tasks: resolutions in another system's universe, on
 	// their own client and resolvers, running concurrently with the main
 	// tasks. They share nothing with them except the process: package-level
@@ -450,8 +461,16 @@ func RunC05(t *kernel.Tape, o Opts) *Result {
 		}
 	} else {
 		shared = newResolver(sys, sc)
+		second := shared
+		if resolverOf != nil {
+			second = newResolver(sys, sc)
+			fault(res, "two_resolvers_one_client", 1)
+		}
 		for i := range perTask {
 			perTask[i] = shared
+			if resolverOf != nil && resolverOf[i] == 1 {
+				perTask[i] = second
+			}
 		}
 	}
 	lruSize = 0
@@ -499,6 +518,7 @@ func RunC05(t *kernel.Tape, o Opts) *Result {
 		g, err, pv := resolveOnce(r, ctx, spec.VK(op.Root.P, op.Root.V))
 		op.panicV = pv
 		if pv == nil {
+			op.g, op.err = g, err
 			op.sig = uni.Signature(g, err)
 			op.desc = uni.Describe(g, err)
 			if g != nil {
@@ -635,6 +655,23 @@ func RunC05(t *kernel.Tape, o Opts) *Result {
 		if fLive != nil {
 			if d := fSpec.Dump(fLive); d != fGolden {
 				violate(res, "client-mutated", "client-mutated:"+fname+":foreign", s.Yields, "the foreign tasks' client reports differently than before: %s", uni.FirstDiff(fGolden, d))
+			}
+		}
+	}
+	// A graph handed to a caller is the caller's: it must read the same after
+	// all later resolutions as it did when it was returned (a result that
+	// shares memory with resolver state would change under its holder).
+	{
+		all := append([][]*c05Op{prefixOps}, programs...)
+		for ti, ops := range all {
+			for j, op := range ops {
+				if op.panicV != nil || (op.g == nil && op.err == nil) {
+					continue
+				}
+				if now := uni.Signature(op.g, op.err); now != op.sig {
+					vk := spec.VK(op.Root.P, op.Root.V)
+					violate(res, "result-unstable", "result-unstable:"+sname, j, "the graph returned by Resolve(%s %s) (program %d, operation %d) reads differently after the later resolutions than when it was returned.\n--- when returned:\n%s\n--- now:\n%s", vk.Name, vk.Version, ti, j, op.desc, uni.Describe(op.g, op.err))
+				}
 			}
 		}
 	}
